@@ -45,7 +45,10 @@ def component(allow_nodens=False, depth=1):
         stats["nested"] += 1
         p = round(rng.uniform(1, 90), rng.randint(0, 2))
         kind = rng.choice(["wt%", "vol%"])
-        return "(%s %s %s // %s)" % (num(p), kind, a, b)
+        tag = ""
+        if rng.random() < 0.3:
+            tag = "@%s%s" % (num(round(rng.uniform(0.5, 9), 3)), rng.choice(["", "n", "i"]))     # the density of the bracketed mixture
+        return "(%s %s %s // %s)%s" % (num(p), kind, a, b, tag)
     if allow_nodens and r < 0.3:
         return rng.choice(NODENS)
     if rng.random() < 0.15:
@@ -247,6 +250,11 @@ while len(cases) < ncase:
         f = add("string-mass/volume", "(InString %s)" % cstr(s), lambda: formula(s), s)
         if isinstance(f, Exception) and any(u == "L" for u in units) and isinstance(f, ValueError) and "unknown element L" in str(f):
             fails.append(dict(signature="C11:unit-L-rejected", what="formula(%r) raises %s" % (s, f), input=s))
+        elif isinstance(f, Exception) and all(not isinstance(attempt(formula, c), Exception) for c in comps) and \
+                all(formula(c).density for c, u in zip(comps, units) if u in VOL_U) and sum(qs) > 0:
+            fails.append(dict(signature="C11:valid-quantity-string-rejected", what="formula(%r) raises %s: %s although every part parses, every "
+                              "unit is documented (%s) and every part given by volume has a density" % (s, type(f).__name__, f, ", ".join(sorted(set(units)))),
+                              input=s))
         if isinstance(f, Formula):
             M = dict(ng=1e-9, ug=1e-6, mg=1e-3, g=1.0, kg=1e3); V = dict(nL=1e-9, uL=1e-6, mL=1e-3, L=1.0)
             masses = [q * M[u] if u in M else q * V[u] * 1000 * formula(c).density for q, u, c in zip(qs, units, comps)]
@@ -318,4 +326,15 @@ while len(cases) < ncase:
         f = add("string-errors", "(InString %s)" % cstr(s), lambda: formula(s), s)
         if isinstance(f, Formula):
             fails.append(dict(signature="C11:invalid-mixture-accepted", what="formula(%r) yields %s" % (s, f), input=s))
+# a bracketed mixture takes a density tag like a compound: '@d' / '@di' is its density, '@dn' its natural density
+stats["tagged_brackets"] = 0
+for inner in ("50 wt% H2O@1 // D2O@1n", "30 vol% D2O@1n // H2O@1", "10 wt% Fe[56] // Ni", "25 wt% Li[6]F@2.6 // LiF@2.64", "40 wt% NaCl@2.16 // H2O@1"):
+    for sfx, attr in (("", "density"), ("i", "density"), ("n", "natural_density")):
+        d_ = round(rng.uniform(0.8, 8), 3)
+        text_ = "(%s)@%s%s" % (inner, num(d_), sfx)
+        f_ = attempt(formula, text_)
+        stats["tagged_brackets"] += 1
+        if isinstance(f_, Exception) or not rel(getattr(f_, attr), d_, 1e-12):
+            fails.append(dict(signature="C11:bracket-density-tag", what="formula(%r).%s is %r, the tag says %r"
+                              % (text_, attr, f_ if isinstance(f_, Exception) else getattr(f_, attr), d_), input=text_))
 json.dump(dict(cases=cases, meta=meta, direct_fails=fails, stats=stats), sys.stdout)
